@@ -178,7 +178,8 @@ TIERS = {
 
 
 def insts_of(form):
-    return [1, 2] if form == "method" else [0]
+    # a method call prepends the instance, a classmethod call the class (one shared prefix)
+    return [1, 2] if form == "method" else [1] if form == "classmethod" else [0]
 
 
 def key(st):
@@ -250,7 +251,7 @@ def replay_path(args):
             if not twin.discarded:
                 rt, inv2 = twin.call(p, n, fail=(op == "fail"))
                 if inv2 != exp_inv or (rt[0] == "boom") != (op == "fail"):
-                    raise MachineryError(f"Lru spec disagrees with functools at {op} {p}: invoked={inv2} result={rt}")
+                    raise MachineryError(f"Lru spec disagrees with functools at {op} {p}: invoked={inv2} result={rt}; cfg={(maxsize, typed, form)} history={[e['a'] for e in path]}")
             if inv1 != exp_inv:
                 bad("unexpected-invocation" if inv1 else "missing-invocation", step, {"expected": exp_inv, "observed": inv1, "op": [op, p, n]})
             if r1 != r2 and inv1 == exp_inv:
